@@ -419,7 +419,19 @@ fn run_stream(id: &str, lines: &[String], out: &mut String) {
     let mut r_out_rx = Some(r_out_rx0); // "dropdown" drops it: whatever listens behind the relay has gone away
     let (c_in_tx, c_in_rx) = unbounded::<BddNode>(); // harness -> receiver
     let mut producer = Bdd::with_sender(p_tx);
-    let mut relay = Bdd::with_sender_receiver(r_out_tx, r_in_rx);
+    // the relay is put together in one of the three ways the interface offers (first line "relaymode <n>")
+    let mode = lines.first().map(|l| l.as_str()).unwrap_or("");
+    let mut relay = if mode == "relaymode 1" {
+        let mut r = Bdd::with_sender(r_out_tx);
+        r.set_receiver(r_in_rx);
+        r
+    } else if mode == "relaymode 2" {
+        let mut r = Bdd::with_receiver(r_in_rx);
+        r.set_sender(r_out_tx);
+        r
+    } else {
+        Bdd::with_sender_receiver(r_out_tx, r_in_rx)
+    };
     let mut receiver = Bdd::with_receiver(c_in_rx);
     let mut regs: Vec<Term> = Vec::new();
     let mut k = 0usize;
@@ -458,6 +470,30 @@ fn run_stream(id: &str, lines: &[String], out: &mut String) {
             }
             "dropdown" => {
                 r_out_rx = None;
+            }
+            "relaymode" => {}
+            "mirroruniq" => {
+                // every node the producer holds is asked for again on both mirrors: a mirror that registered what it
+                // received answers with the handle it already has and does not grow
+                let mut bad = 0usize;
+                let pn = producer.nodes.clone();
+                for (which, m) in [(1usize, &mut relay), (2usize, &mut receiver)] {
+                    let before = m.nodes.len();
+                    for (i, nd) in pn.iter().enumerate().skip(2) {
+                        if i >= before {
+                            break;
+                        }
+                        let t = m.node(nd.var(), nd.lo(), nd.hi());
+                        if t != Term(i) {
+                            bad += 1;
+                        }
+                    }
+                    if m.nodes.len() != before {
+                        bad += 1000 * which;
+                    }
+                }
+                writeln!(out, "{} q{} mirroruniq {}", id, k, bad).unwrap();
+                k += 1;
             }
             "poll1" => {
                 let f = relay.recv(Term(w[1].parse().unwrap()));
